@@ -90,6 +90,12 @@ def plan(tier, seed):
             grid = [int(rng.integers([10, 8, 5][nd - 1], [41, 21, 10][nd - 1])) for _ in range(nd)]
         M = int(rng.integers(16, 40))
         ov, w = pick(rng, [(1.25, 4), (1.25, 4), (2, 4)])
+        if i % 4 == 3:
+            # decimal oversampling factors times lengths that give a whole number: every place
+            # that derives an oversampled size (operator grid, Toeplitz embedding) must agree
+            ov = pick(rng, [1.6, 1.3, 1.35, 1.4])
+            grid = [int(pick(rng, [[5, 10, 20, 40], [5, 10, 20], [5, 10]][nd - 1]))
+                    for _ in range(nd)]
         d = {"op": "NUFFT", "ishape": pick(rng, [[], [], [], [2], [2], [1], [2, 3]]) + grid,
              "nd": nd, "pts": [M], "ccls": pick(rng, ["inside", "inside", "outside",
                                                       "clustered"]),
@@ -141,8 +147,11 @@ def run_one(case):
         # relative to its exact output, the psf carries two passes and A^H A two more:
         #   ||T x - A^H A x|| <= 4 eps_nd ||E||_2 ||A x||      (E = exact NDFT matrix)
         from vf.workloads.c06 import sep_bound
-        eps_nd = max(TOEP_EPS[(desc["oversamp"], desc["width"])],
-                     sep_bound(desc["oversamp"], desc["nd"]))
+        # (other oversampling factors >= 1.25 at width 4: at least as accurate as the default,
+        # C06's sanity bound)
+        ov_ = desc["oversamp"]
+        eps_nd = max(TOEP_EPS.get((ov_, desc["width"]), 0.03),
+                     sep_bound(ov_ if ov_ in (1.25, 2, 2.0) else 1.25, desc["nd"]))
         tol = 4 * eps_nd
         coord = lops.leaf_arrays(desc)["coord"]
         opn = float(np.linalg.norm(ONDFT.ndft_matrix(coord, desc["ishape"][-desc["nd"]:]), 2))
